@@ -293,6 +293,8 @@ where
         // any additional digits, and then just write the remaining zeros.
         bytes[digit_count..leading_digits].fill(b'0');
         cursor = leading_digits;
+        // NOTE: the zeros of the integer are significant digits.
+        digit_count = leading_digits;
         // Only write decimal point if we're not trimming floats.
         if !options.trim_floats() {
             bytes[cursor] = decimal_point;
